@@ -35,7 +35,6 @@ use core::iter::once;
 
 use anyhow::{ensure, Result};
 use hashbrown::HashMap;
-use itertools::Itertools;
 use plonky2::field::extension::{Extendable, FieldExtension};
 use plonky2::field::packed::PackedField;
 use plonky2::field::polynomial::PolynomialValues;
@@ -346,12 +345,23 @@ fn ctl_helper_zs_cols<F: Field, const N: usize>(
     challenge: GrandProductChallenge<F>,
     constraint_degree: usize,
 ) -> Vec<(usize, Vec<PolynomialValues<F>>)> {
-    let grouped_lookups = looking_tables.iter().group_by(|a| a.table);
+    // Group the looking tables by table index, in order of first appearance. All entries of one
+    // table belong together even when they are not adjacent in `looking_tables`, which is how
+    // `cross_table_lookup_data`, `CtlCheckVars::from_proof` and `verify_cross_table_lookups`
+    // count them.
+    let mut tables = Vec::new();
+    for looking_table in &looking_tables {
+        if !tables.contains(&looking_table.table) {
+            tables.push(looking_table.table);
+        }
+    }
 
-    grouped_lookups
+    tables
         .into_iter()
-        .map(|(table, group)| {
-            let columns_filters = group
+        .map(|table| {
+            let columns_filters = looking_tables
+                .iter()
+                .filter(|looking_table| looking_table.table == table)
                 .map(|table| (&table.columns[..], &table.filter))
                 .collect::<Vec<(&[Column<F>], &Filter<F>)>>();
             (
